@@ -53,6 +53,8 @@ type regSys struct {
 	postCheck func(s *regSys, op Op, out Outcome) // property-specific invariants after each checked transition
 	// onStep runs after every transition, also while replaying (check=false):
 	// history monitors rebuild their state here and report only when check is set.
+	depth    int              // search depth of the state being produced (set by vstate.BFS)
+	opFilter func(op Op) bool // optional restriction of the enabled operations in the current state
 	onStep   func(s *regSys, op Op, out Outcome, check bool) (tainted bool)
 	noOracle bool // the reference model only tracks (follows the implementation); no model comparison
 	sub      string
@@ -74,6 +76,20 @@ func (s *regSys) caseOf(op *Op) c02Case {
 }
 
 func (s *regSys) Enabled() []Op {
+	ops := s.enabledAll()
+	if s.opFilter == nil {
+		return ops
+	}
+	var out []Op
+	for _, op := range ops {
+		if s.opFilter(op) {
+			out = append(out, op)
+		}
+	}
+	return out
+}
+
+func (s *regSys) enabledAll() []Op {
 	ops := append([]Op(nil), s.static...)
 	if !s.cfg.Chunked {
 		return ops
@@ -243,6 +259,9 @@ func (s *regSys) exec(op Op) (out Outcome) {
 	}
 	panic("exec: unknown op " + op.K)
 }
+
+// SetDepth is called by the search before a checked transition.
+func (s *regSys) SetDepth(d int) { s.depth = d }
 
 func (s *regSys) Apply(op Op, check bool) (tainted bool) {
 	fpBase := fmt.Sprintf("%s/%s/%s", s.prop, s.mode, op.K)
